@@ -218,6 +218,21 @@ PROPS["C06"] = dict(
     thorough=dict(shards=16, checks=800, timeout_s=5400),
 )
 
+PROPS["C17"] = dict(
+    pkg="props/c17", level="exploration", engine="E-model", design_ref="§4 C17",
+    technique="differential + model-based PBT (rapid): the same abstract program through the string and the byte API on two fresh databases; map oracle at every observation point",
+    rule=("case = 1..40 steps Put/Delete/Get/rotate+flush/restart over keys incl. nil, empty, non-UTF-8 and 300-byte keys and values incl. nil, empty, 1..300 bytes and 64 KiB, executed once through "
+          "Put/Delete/Get and once through PutBytes/DeleteBytes/GetBytes; oracle: (a) same error class and value per step in both flavours, (b) empty/nil key or value => error, (c) a call that returned "
+          "an error leaves the whole universe equal to the map, observed directly after every write, after rotate+flush and after a clean restart; non-trivial = a rejected call followed by an accepted "
+          "write, a flush and a restart; distinct = distinct case JSON"),
+    level_text="Differential and reference-map oracles over generated programs mixing rejected and accepted calls (in-process leg; crash images after rejected calls are added by the E-crash engine).",
+    level_note="the string flavour cannot express nil, so nil is mapped to the empty string there",
+    assumptions=COMMON_ASSUME + ["hooks: simpledb.VerifRotate / VerifWaitFlushIdle (tag verif)"],
+    require_labels=["rejected-call"],
+    quick=dict(shards=16, checks=60, shrink_s=5),
+    thorough=dict(shards=16, checks=2000, timeout_s=5400),
+)
+
 NOT_APPLICABLE = {}
 
 
